@@ -31,6 +31,7 @@ from urwid import str_util
 from urwid.event_loop import ExitMainLoop
 from urwid.util import get_encoding
 
+from . import escape
 from .common import AttrSpec, BaseScreen
 
 if typing.TYPE_CHECKING:
@@ -40,6 +41,9 @@ if typing.TYPE_CHECKING:
 
 # replace control characters with ?'s
 _trans_table = "?" * 32 + "".join(chr(x) for x in range(32, 256))
+
+# DEC special graphics characters (charset "0" runs of a canvas) back to the characters they stand for
+_dec_special_to_unicode = str.maketrans(escape.ALT_DEC_SPECIAL_CHARS, escape.DEC_SPECIAL_CHARS)
 
 _default_foreground = "black"
 _default_background = "light gray"
@@ -106,8 +110,11 @@ class HtmlGenerator(BaseScreen):
         for y, row in enumerate(canvas.content()):
             col = 0
 
-            for a, _cs, run in row:
+            for a, cs, run in row:
                 t_run = run.decode(get_encoding()).translate(_trans_table)
+                if cs == escape.DEC_TAG:
+                    # run is in the DEC special graphics set: show the glyphs the terminal would show
+                    t_run = t_run.translate(_dec_special_to_unicode)
                 if isinstance(a, AttrSpec):
                     aspec = a
                 else:
